@@ -36,7 +36,23 @@ def absorbs(g, ir, ch, depth=0):
             return absorbs(g, dict(ir, items=items[:-1]), ch, depth + 1)
         return False
     if t == "alt":
-        return any(absorbs(g, a, ch, depth + 1) for a in ir["alts"] if not c05.never_succeeds(g, a))
+        for a in ir["alts"]:
+            if not c05.never_succeeds(g, a):
+                if absorbs(g, a, ch, depth + 1):
+                    return True
+                continue
+            # an alternative that never succeeds exists to *reject*: `trigger.and_then(cut_err(fail))`. Choice is ordered, so
+            # if its trigger can run into the following character, a valid argument followed by ch is turned into an error
+            a0 = unwrap(a)
+            trig = None
+            if a0["t"] == "andthen":
+                trig = unwrap(a0["outer"])
+            elif a0["t"] == "seq" and len(a0["items"]) >= 2:
+                trig = dict(a0, items=a0["items"][:-1])
+            if trig is not None and trig["t"] == "seq" and len(trig["items"]) >= 2:
+                if c05.may_succeed_before(g, trig["items"][-1]["p"], ch):
+                    return True
+        return False
     if t in ("map", "value", "trymap", "fold", "verify"):
         return absorbs(g, ir["p"], ch, depth + 1)
     if t == "andthen":
@@ -186,6 +202,17 @@ def run(c, facts, tier):
             not bad,
             "a ')' written without a blank after %r%s is %s" % (a.lit, " and its argument" if a.rest else "", "left for the parenthesis token" if not bad else "absorbed by the argument or rejected by a guard: '( x )' and '(x)' would differ"),
             witness="(%s%s)" % (a.lit, " …" if a.rest else "") if bad else None,
+            nontrivial=False,
+        )
+        # every kind of blank ends the primary the same way
+        badb = [repr(ch) for ch in " \t\r\n" if absorbs(g, seq_ir, ch)]
+        c.ob(
+            "C06.blank-set",
+            a.site,
+            "%s followed by any kind of blank" % a.lit,
+            not badb,
+            "after %r%s every blank (space, tab, CR, LF) is left for the separator" % (a.lit, " and its argument" if a.rest else "") if not badb else "after %r%s the blank kind(s) %s are taken into the argument or make it an error, while the others separate: spellings that differ only in the kind of blank would differ" % (a.lit, " and its argument" if a.rest else "", ", ".join(badb)),
+            witness="%s …\\n-print" % a.lit if badb else None,
             nontrivial=False,
         )
     c.floor("primaries checked against ')'", nprim, 56)
